@@ -31,9 +31,9 @@ import common
 import gen_inputs
 import leanio
 
-PROP_FILES = ["C03", "C06", "C07", "C10", "C18", "BFULL2"]
+PROP_FILES = ["C03", "C06", "C07", "C09", "C10", "C18", "BFULL2"]
 MARK = "wp2_bfull2"
-MARKS = ["wp2_bfull2", "wp2b_affix", "wp2b_vspace", "wp2b_indent"]
+MARKS = ["wp2_bfull2", "wp2b_affix", "wp2b_vspace", "wp2b_indent", "wp2c_selstable", "wp2c_vspace"]
 PROCS = int(os.environ.get("BFULL2_PROCS", "5"))
 
 # ------------------------------------------------------------------ Lean side
@@ -390,6 +390,7 @@ def compare_indent(out, path, variant, rid, cfg, real, lean, fam="indent"):
             # a second analysis that still reports: allowed only outside the theorem's guard (adjust under an unknown style)
             if guard_ok:
                 out["findings"].append({"prop": "C10", "site": "token_indent", "kind": "secondAnalysisNonEmpty", "rule": rid, "path": path, "variant": variant, "cfg": list(cfg), "detail": repr(real["second"][:4])})
+                out["findings"].append({"prop": "C09", "site": "token_indent", "kind": "secondAnalysisNonEmpty", "rule": rid, "path": path, "variant": variant, "cfg": list(cfg), "detail": repr(real["second"][:4])})  # wp2c: the same observation refutes one-step convergence
         if real["c07"] is not None and guard_ok and cfg[1] >= 1 and fam == "indent":
             # (synthetic negative levels: empty indent inserted as well — only real levels are held to the C07 clause)
             # (size <= 0: `add_whitespace` inserts an EMPTY whitespace token — reported line, unchanged text; outside the guard of the C07 theorem)
